@@ -278,6 +278,7 @@ Inductive step : Type :=
 | SCloseStream
 | SCloseFile
 | SReply
+| SCloseFileFail (k : nat)   (* close() raises after flushing only k bytes (quota / ENOSPC / EFBIG at the flush) *)
 | SObserve.    (* some session stats / lists the path (MLST, MLSD, LIST): it is told length v_visible; observing changes nothing *)
 
 Record vstate : Type := mkV {
@@ -301,6 +302,7 @@ Definition v_step (v : vstate) (s : step) : vstate :=
   | SCloseStream => v
   | SCloseFile => mkV (v_handle v) (h_content (v_handle v)) false (v_at_reply v)
   | SReply => mkV (v_handle v) (v_visible v) (v_file_open v) (Some (v_visible v, v_file_open v))
+  | SCloseFileFail k => mkV (v_handle v) (firstn k (h_content (v_handle v))) false (v_at_reply v)
   | SObserve => v
   end.
 
@@ -329,6 +331,14 @@ Definition stor_script (reply_after_ctx : bool) (ctx : list string) (m : mode) (
            (blocks : list bytes) (flushes : list bool) : list step :=
   [SOpen m] ++ (if off =? 0 then [] else [SSeek off]) ++ write_steps blocks flushes
   ++ (if reply_after_ctx then exit_steps ctx ++ [SReply] else SReply :: exit_steps ctx).
+
+(* the same statement sequence when the file's close() FAILS: the exception leaves the `async with`
+   (the other context item is still exited) and the statement after it -- the completion reply --
+   is never reached *)
+Definition stor_script_close_fails (ctx : list string) (m : mode) (off : nat)
+           (blocks : list bytes) (flushes : list bool) (k : nat) : list step :=
+  [SOpen m] ++ (if off =? 0 then [] else [SSeek off]) ++ write_steps blocks flushes
+  ++ map (fun c => if String.eqb c "STREAM" then SCloseStream else SCloseFileFail k) (rev ctx).
 
 (* ------------------------------------------------------------------------------------------ *)
 (* the restart offset across commands.  Dispatcher, for a verb of the table, when the command is
@@ -457,6 +467,8 @@ Definition check_xfer_shapes (f : xfer_facts) : bool :=
      sibling name, no rename, no unlink) *)
   && list_string_eqb (xf_worker_fs_calls f)
        ["conn.path_io.open(real_path, mode=file_mode)"; "--"; "conn.path_io.open(real_path, mode='rb')"]
+  (* the file context's exit awaits close() and lets its exception out (no try / except around it) *)
+  && list_string_eqb (xf_file_ctx_aexit f) ["if self.close is not None: await self.close()"]
   && list_string_eqb (xf_observer_state f)
        ["_build_mlsx_facts_from_stats"; "_format_mlsx_time"; "build_list_mtime"; "build_list_string";
         "build_mlsx_string"; "encoding"; "get_paths"]
